@@ -5,8 +5,8 @@ Require Import TT.Model.Str TT.Model.TypeParse TT.Spec.TsLex TT.Spec.TsModule TT
 Require Import TT.Spec.C10Shape TT.Model.C10Zod TT.Spec.C10Check.
 
 Definition c10_project (p : proj) (plain_text zod_text : str) : sx := c10_project_sx p plain_text zod_text.
-Definition c10_tcase (m : mapping) (t : tstruct) (opt with_enum with_unit : bool) (ct : tstruct) (fk pk ck lit : str) : proj :=
-  tcase_proj m t opt with_enum with_unit ct fk pk ck lit.
+Definition c10_tcase (m : mapping) (t : tstruct) (opt with_enum with_unit : bool) (ct : tstruct) (fk pk ck lit : str) (extra : list cdef) : proj :=
+  tcase_proj m t opt with_enum with_unit ct fk pk ck lit extra.
 Definition c10_strings (m : mapping) (t : tstruct) : sx := c10_strings_sx m t.
 Definition c10_string_oracle (a b c d : str) : sx := c10_string_oracle_sx a b c d.
 Definition c10_in_dom (m : mapping) (t : tstruct) : bool := c10_dom m t.
